@@ -498,10 +498,18 @@ func (s *Sim) serve(w http.ResponseWriter, r *http.Request) {
 		if code != 0 {
 			break
 		}
-		if (f.Verb == "" || f.Verb == verb) && (f.Resource == "" || f.Resource == pp.resource) && (f.Name == "" || f.Name == name) {
+		isWrite := verb == "create" || verb == "update" || verb == "updateStatus" || verb == "delete" || verb == "apply" || verb == "patchRemove"
+		if (f.Verb == "" || f.Verb == verb || (f.Verb == "write" && isWrite)) && (f.Resource == "" || f.Resource == pp.resource) && (f.Name == "" || f.Name == name) {
 			f.seen++
 			if f.Always || f.seen == f.Nth {
 				code, reason = f.Code, f.Reason
+				if code == 409 && reason == "" {
+					// the 409 a server would give for this verb
+					reason = "Conflict"
+					if verb == "create" {
+						reason = "AlreadyExists"
+					}
+				}
 				e.Injected = true
 				break
 			}
